@@ -27,19 +27,29 @@ from ..lib.impl import ERRSHOW, Raised, call, err_class
 LEVEL = "proof"
 CLAIM = dict(
     category="proof",
-    text="DarSIA's own aliasing logic is modelled as a heap of cells (Image = record of references) and proved: every "
-    "modelled call (constructor incl. dimensions=/height=, copy, + - * scalar, comparisons, astype, time_slice, "
-    "time_interval, subregion, weight by number/image, stack) and every chain of such calls leaves all objects reachable "
-    "from its arguments unchanged (op_preserves_args, chain_preserves_args, stack_preserves_images), append writes only "
-    "self's own cells, + - * are element-wise, and the tabulated __mul__ guard admits every documented scalar type. "
-    "The model is tied to the code by random programs compared statement by statement on values AND object identities. "
-    "The wider registry of the property (img_as, colour conversions, resize, superpose, reduce_axis, extrude, models, "
-    "Geometry.integrate, EMD, random_patches, ...; dtype promotion of arithmetic) is NOT modelled: it is observed by a "
-    "snapshot oracle (arguments, containers, global RNG state before/after; chains of <= 5 calls).",
-    note="proof part: aliasing of the modelled calls over exact rationals; observed part: ~70 call forms x random images, "
-    "cv2 / skimage / numpy internals and dtype promotion.",
-    technique="Lean 4 proof (heap/frame model, induction over call chains and over the list passed to stack) + "
-    "G1 tabulated guard + differential correspondence with tracked identities + snapshot oracle",
+    text="DarSIA's own aliasing logic is modelled as a heap of cells (Image = record of references; numpy views refer to the "
+    "buffer they read) for 23 call forms: constructor (incl. dimensions=/height=), copy, + - * scalar, comparisons, "
+    "astype(numpy type / Image class), img_as / to_trichromatic(return_image=True) / ClipModel / TVD on images (copy + rebind), "
+    "to_monochromatic, time_slice, time_interval, subregion, weight by number / image, stack, resize / uniform_refinement / "
+    "zeros_like (type(a)(new, **a.metadata())), reduce_axis, extrude_along_axis, superpose, read-only measurements, model "
+    "calls on raw arrays, plus the in-place operations append, in-place to_trichromatic / attribute rebinding and pixel "
+    "writes through an image. Proved for all heaps: every call and every chain of calls leaves everything reachable from its "
+    "arguments unchanged (op_preserves_args, chain_preserves_args, stack_preserves_images); the result is a new object from "
+    "which only new cells or the documented shared cells are reachable (result_fresh_or_documented_view: the pixel buffer "
+    "for the three view-returning calls, the date/time objects handed on by metadata(), nothing for copy / * / astype / "
+    "img_as / colour conversions / weight / stack); a later pixel write through the result of a call documented to return a "
+    "new image cannot reach any pre-existing object, and in general only documented shared cells "
+    "(write_result_isolated, write_result_touches_only_shared); append / in-place conversions applied to a result never "
+    "reach an argument (inplace_on_result_isolated); append writes only self; + - * are element-wise; the tabulated "
+    "__mul__ guard admits every documented scalar type. Tie: random programs over all these statements, compared statement "
+    "by statement on values AND object identities (which image shares which buffer / list). New arrays computed by numpy / "
+    "cv2 / skimage enter the model as parameters: their VALUES (resize, colour conversion, warping, dtype promotion of "
+    "arithmetic) are not modelled. Observed only: the remaining registry forms (EMD, wasserstein, random_patches, "
+    "coordinate-based subregions, Resize options, ...), the snapshot oracle incl. later in-place work on every result.",
+    note="proof part: aliasing / frame / reachability of 23 modelled call forms and 3 in-place operations over exact rationals; "
+    "observed part: ~100 call forms x random images, values produced by cv2 / skimage / numpy.",
+    technique="Lean 4 proof (heap/frame model, freshness invariant, induction over call chains, over reachability and over the "
+    "list passed to stack) + G1 tabulated guard + differential correspondence with tracked identities + snapshot oracle",
 )
 
 EPOCH = dt.datetime(2020, 1, 1)
@@ -209,8 +219,11 @@ class Prog:
         return self.add(f"objs {len(idx)} " + " ".join(map(str, idx)), "objs", lambda: [self.vars[i][1] for i in idx])
 
     def ctor(self, arr, space_dim, dims=None, height=None, width=None, depth=None, origin=None, series=False,
-             scalar=True, date=None, time=None):
+             scalar=True, date=None, time=None, cls="I"):
         kw = dict(space_dim=space_dim, series=series, scalar=scalar)
+        Cls = {"I": self.d.Image, "S": self.d.ScalarImage, "O": self.d.OpticalImage}[cls]
+        if cls == "O":
+            kw["color_space"] = "RGB"
         if dims is not None:
             kw["dimensions"] = self.vars[dims][1]
         for k, v in (("height", height), ("width", width), ("depth", depth)):
@@ -222,7 +235,7 @@ class Prog:
             kw["date"] = self.vars[date][1]
         if time is not None:
             kw["time"] = self.vars[time][1]
-        img = call(lambda: self.d.Image(self.vars[arr][1], **kw))
+        img = call(lambda: Cls(self.vars[arr][1], **kw))
         def_origin = [] if isinstance(img, Raised) or origin is not None else [float(x) for x in img.origin]
         o = lambda x: "none" if x is None else str(x)
         r = lambda x: "none" if x is None else fmt(x)
@@ -239,14 +252,19 @@ class Prog:
         return [i for i, (k, _) in enumerate(self.vars) if k == "img"]
 
 
-def build_image(p, rng, space_dim=None, series=None, scalar=None, shape=None):
+def build_image(p, rng, space_dim=None, series=None, scalar=None, shape=None, cls=None):
     """allocate the pieces of an image through statements and construct it; returns the variable index"""
+    cls = cls or rng.choice(["I", "I", "S", "O"])
+    if cls == "O":
+        space_dim, scalar = 2, False
+    if cls == "S":
+        scalar = True
     space_dim = space_dim or rng.choice([1, 2, 2, 2, 3])
     series = rng.random() < 0.4 if series is None else series
     scalar = rng.random() < 0.75 if scalar is None else scalar
     shape = tuple(shape or [rng.randint(2, 3) for _ in range(space_dim)])
     T = rng.randint(2, 3)
-    full = shape + ((T,) if series else ()) + (() if scalar else (2,))
+    full = shape + ((T,) if series else ()) + (() if scalar else ((3,) if cls == "O" else (2,)))
     a = p.arr(full)
     dims = origin = date = time = None
     height = width = depth = None
@@ -273,13 +291,13 @@ def build_image(p, rng, space_dim=None, series=None, scalar=None, shape=None):
             time = p.tv(rng.choice([0, 3, 10]), False)
         elif m < 0.5:
             date = p.tv(rng.choice([0, 5, 60]), True)
-    return p.ctor(a, space_dim, dims, height, width, depth, origin, series, scalar, date, time)
+    return p.ctor(a, space_dim, dims, height, width, depth, origin, series, scalar, date, time, cls=cls)
 
 
 def partner(p, rng, i, same_shape=True):
     """a second image compatible with image i (same shape and metadata values, own objects)"""
     im = p.img(i)
-    shape = im.img.shape if same_shape else tuple(s + 1 for s in im.img.shape)
+    shape = im.img.shape if same_shape else tuple(s + 1 if k < im.space_dim else s for k, s in enumerate(im.img.shape))
     a = p.arr(shape)
     dims = p.nums(list(im.dimensions))
     origin = p.nums(list(im.origin))
@@ -295,7 +313,8 @@ def partner(p, rng, i, same_shape=True):
             date = p.tv((im.date - EPOCH).total_seconds() + 16, True)
         elif im.time is not None:
             time = p.tv(im.time + 4, False)
-    return p.ctor(a, im.space_dim, dims, None, None, None, origin, im.series, im.scalar, date, time)
+    cls = {"Image": "I", "ScalarImage": "S", "OpticalImage": "O"}[type(im).__name__]
+    return p.ctor(a, im.space_dim, dims, None, None, None, origin, im.series, im.scalar, date, time, cls=cls)
 
 
 CMPS = {"lt": lambda a, b: a < b, "gt": lambda a, b: a > b, "eq": lambda a, b: a == b,
@@ -310,16 +329,33 @@ def random_op(p, rng, malformed=False):
     i = rng.choice(ims)
     im = p.img(i)
     choices = ["copy", "add", "sub", "mul", "astype", "wnum", "stack", "build", "subreg", "append"]
-    isbool = lambda j: p.img(j).img.dtype == bool
+    def isbool(j):
+        """boolean data, or data that is not a short dyadic number (results of cv2 / float32 arithmetic): the exact-rational
+        model does not predict numpy's arithmetic on it, so it takes no further part in arithmetic statements"""
+        a = p.img(j).img
+        if a.dtype == bool:
+            return True
+        a = np.asarray(a, dtype=np.float64)
+        return not (np.all(np.isfinite(a)) and np.all(a * 64 == np.round(a * 64)) and np.all(np.abs(a) < 2 ** 20))
     if not im.series and im.scalar:
         choices += ["cmpn", "cmpi"]
     if isbool(i):
         # comparison results are boolean arrays: numpy's boolean arithmetic is outside the exact-rational model
-        choices = ["copy", "subreg", "build", "cmpn"]
+        choices = ["copy", "subreg", "build"] + (["cmpn"] if im.img.dtype == bool else ["wpix", "aclass", "stack", "extrude"][: 3 if im.space_dim != 2 else 4])
     if im.series:
         choices += ["tslice", "tint"]
-    if im.space_dim == 2 and im.scalar and not im.series:
+    if im.space_dim == 2 and im.scalar and not im.series and not isbool(i):
         choices += ["wimg", "wimg"]
+    if not isbool(i):
+        choices += ["crebind", "derive", "aclass", "measure", "arrmap", "wpix", "wpix"]
+        if im.space_dim >= 2:
+            choices += ["reduce"]
+        if im.space_dim == 2:
+            choices += ["extrude"]
+        if type(im).__name__ == "OpticalImage" and not isbool(i):
+            choices += ["tomono", "tomono", "rebind", "trichro"]
+        if type(im).__name__ == "ScalarImage" and im.space_dim == 2 and not im.series:
+            choices += ["superpose", "superpose"]
     if malformed:
         choices = ["add_bad", "mul_bad", "tslice_bad", "stack_bad"]
     op = rng.choice(choices)
@@ -411,6 +447,110 @@ def random_op(p, rng, malformed=False):
         rz = [] if shape == im.img.shape else list(
             cv2.resize(w.img.copy(), tuple(reversed(im.img.shape[:2])), interpolation=cv2.INTER_LINEAR).ravel())
         return p.add(f"wimg {i} {j} {rlist(rz)}", "img", lambda: d.weight(im, w))
+    arrtxt = lambda a: f"{rlist(a.shape)} {rlist(np.asarray(a, dtype=float).ravel())}"
+    if op == "crebind":
+        which = rng.choice(["img_as", "clip", "astype32"])
+        if which == "img_as":
+            res = call(lambda: im.img_as(float))
+        elif which == "clip":
+            res = call(lambda: d.ClipModel(**{"min value": 0.0, "max value": 2.0})(im))
+        else:
+            res = call(lambda: im.astype(np.float32))
+        if isinstance(res, Raised):
+            return None
+        return p.add(f"crebind {i} {arrtxt(res.img)}", "img", lambda: res)
+    if op == "trichro":
+        res = call(lambda: im.to_trichromatic("BGR", return_image=True))
+        if isinstance(res, Raised):
+            return None
+        return p.add(f"crebind {i} {arrtxt(res.img)}", "img", lambda: res)
+    if op == "rebind":
+        before = im.img
+        r0 = call(lambda: im.to_trichromatic(rng.choice(["BGR", "RGB"])))
+        if isinstance(r0, Raised):
+            p.dead = True
+            return None
+        if im.img is before:
+            # float64 image and another colour space: the method rebinds its *local* `self` to an astype copy, the
+            # caller's object is left as it was (observed; nothing to model)
+            p.noops = getattr(p, "noops", 0) + 1
+            return None
+        return p.add(f"rebind {i} {arrtxt(im.img)}", "img", lambda: im)
+    if op == "derive":
+        which = rng.choice(["zeros_like", "refine", "resize"] if im.space_dim == 2 else ["zeros_like", "refine"])
+        if which == "zeros_like":
+            res = call(lambda: d.zeros_like(im))
+        elif which == "refine":
+            res = call(lambda: d.uniform_refinement(im, 1))
+        else:
+            res = call(lambda: d.resize(im, shape=(rng.randint(2, 4), rng.randint(2, 4)), interpolation="inter_nearest"))
+        if isinstance(res, Raised):
+            return None
+        return p.add(f"derive {i} {arrtxt(res.img)}", "img", lambda: res)
+    if op == "aclass":
+        fs = bool(im.scalar and rng.random() < 0.5)
+        return p.add(f"aclass {i} {int(fs)}", "img", lambda: im.astype(d.ScalarImage if fs else d.Image))
+    if op == "tomono":
+        key = rng.choice(["red", "green", "blue", "gray"])
+        res = call(lambda: im.to_monochromatic(key))
+        if isinstance(res, Raised):
+            return None
+        if key == "gray":
+            return p.add(f"tomono {i} none {rlist(np.asarray(res.img, dtype=float).ravel())}", "img", lambda: res)
+        k = ["red", "green", "blue"].index(key)
+        conv = im.to_trichromatic("RGB", return_image=True).img
+        return p.add(f"tomono {i} {k} {rlist(np.asarray(conv, dtype=float).ravel())}", "img", lambda: res)
+    if op == "reduce":
+        ax = rng.randrange(im.space_dim)
+        res = call(lambda: d.reduce_axis(im, ax, mode="sum"))
+        if isinstance(res, Raised):
+            return None
+        return p.add(f"reduce {i} {ax} {arrtxt(res.img)} {rlist(res.origin)}", "img", lambda: res)
+    if op == "extrude":
+        ht, num = rng.choice([2, 0.5, 3]), rng.randint(1, 3)
+        res = call(lambda: d.extrude_along_axis(im, float(ht), num))
+        if isinstance(res, Raised):
+            return None
+        return p.add(f"extrude {i} {fmt(ht)} {num} {rlist(res.origin)}", "img", lambda: res)
+    if op == "superpose":
+        j = partner(p, rng, i)
+        if j is None:
+            return None
+        lst = p.objs([i, j])
+        if lst is None:
+            return None
+        res = call(lambda: d.superpose(p.vars[lst][1]))
+        if isinstance(res, Raised):
+            return None
+        return p.add(f"superpose {lst} {arrtxt(res.img)} {rlist(res.dimensions)} {rlist(res.origin)}", "img", lambda: res)
+    if op == "measure":
+        if im.space_dim == 2 and im.scalar and not im.series and rng.random() < 0.5:
+            geo = call(lambda: d.Geometry(**im.shape_metadata()))
+            val = geo if isinstance(geo, Raised) else call(lambda: geo.integrate(im))
+        else:
+            val = call(lambda: float(np.sum(im.img)))
+        if isinstance(val, Raised) or not np.isscalar(val):
+            return None
+        return p.add(f"measure 1 {i} {fmt(float(val))}", "tv", lambda: float(val))
+    if op == "arrmap":
+        arrs = [k for k, (kd, _) in enumerate(p.vars) if kd == "arr"]
+        a = rng.choice(arrs)
+        res = call(lambda: d.LinearModel(scaling=2.0, offset=1.0)(p.vars[a][1]) if rng.random() < 0.5 else
+                   d.ClipModel(**{"min value": 0.0, "max value": 2.0})(p.vars[a][1]))
+        if isinstance(res, Raised):
+            return None
+        return p.add(f"arrmap {a} {rlist(np.asarray(res, dtype=float).ravel())}", "arr", lambda: res)
+    if op == "wpix":
+        # a user writing pixels through an image obtained from an earlier call (in place, through views)
+        if not im.img.flags.writeable:
+            return None
+        vals = [float(rng.choice(DATA)) for _ in range(im.img.size)]
+
+        def run():
+            im.img[...] = np.array(vals).reshape(im.img.shape)
+            return im
+
+        return p.add(f"wpix {i} {rlist(vals)}", "img", run)
     if op in ("stack", "stack_bad", "append"):
         if op == "stack_bad":
             a = p.arr(im.img.shape)
@@ -651,11 +791,40 @@ def registry(d):
         pts = d.CoordinateArray([o + 0.25 * (c - o), o + 0.75 * (c - o)])
         return (lambda: a.subregion(pts)), [a, pts]
 
-    @form("subregion[voxels]", ["S2", "O2u8"])
+    @form("subregion[voxels]", ["S2", "O2u8", "S2s", "V2"])
     def _(ctx, a):
+        # ROI boxes inside the image, touching its border, and sticking out of it (negative / beyond the extent)
         n = a.img.shape
-        pts = d.VoxelArray([[0, 0], [max(1, n[0] - 1), max(1, n[1] - 1)]])
+        lo = [ctx.rng.randint(-3, max(0, n[k] - 2)) for k in range(2)]
+        hi = [ctx.rng.randint(max(lo[k], 0) + 1, n[k] + 3) for k in range(2)]
+        corners = [[lo[0], lo[1]], [hi[0], hi[1]]]
+        if ctx.rng.random() < 0.5:
+            corners += [[lo[0], hi[1]], [hi[0], lo[1]]]
+        pts = d.VoxelArray(corners)
         return (lambda: a.subregion(pts)), [a, pts]
+
+    @form("subregion[coordinates,outside]", ["S2", "O2u8", "S2s"])
+    def _(ctx, a):
+        o, c = np.array(a.origin, dtype=float), np.array(a.opposite_corner, dtype=float)
+        f0, f1 = ctx.rng.choice([-0.4, -0.1, 0.2]), ctx.rng.choice([0.7, 1.2, 1.6])
+        pts = d.CoordinateArray([o + f0 * (c - o), o + f1 * (c - o)])
+        return (lambda: a.subregion(pts)), [a, pts]
+
+    @form("subregion[voxels,reused-roi]", ["S2"])
+    def _(ctx, a):
+        # the same ROI object used on two images of different size: the second call must see the ROI the caller built
+        big = rand_image(ctx, d, "S2", shape=(a.img.shape[0] + 4, a.img.shape[1] + 6))
+        pts = d.VoxelArray([[-1, 1], [a.img.shape[0] + 2, a.img.shape[1] + 3]])
+        expect = call(lambda: big.subregion(d.VoxelArray(np.array(pts).copy())))
+
+        def run():
+            a.subregion(pts)
+            second = big.subregion(pts)
+            if not isinstance(expect, Raised) and second.img.shape != expect.img.shape:
+                raise RuntimeError(f"second use of the ROI gives shape {second.img.shape}, a fresh ROI {expect.img.shape}")
+            return second
+
+        return run, [a, big, pts]
 
     @form("time_slice", ["S2s", "S2sd"])
     def _(ctx, a):
@@ -831,10 +1000,66 @@ def registry(d):
 
     @form("random_patches", ["S2b"])
     def _(ctx, a):
-        mask = np.ones((8, 8), dtype=bool)
-        return (lambda: d.random_patches(mask, width=2, num_patches=3)), [mask]
+        # from "a few patches in a large mask" to "more patches than eligible anchor points" (colliding draws)
+        n0, n1 = ctx.rng.randint(4, 16), ctx.rng.randint(4, 16)
+        mask = np.ones((n0, n1), dtype=bool) if ctx.rng.random() < 0.6 else (nprng(ctx).rand(n0, n1) < 0.7)
+        width = ctx.rng.randint(1, 5)
+        num = ctx.rng.choice([1, 3, 8, 30, 100, n0 * n1 + 5])
+        return (lambda: d.random_patches(mask, width=width, num_patches=num)), [mask, width, num]
 
     return R
+
+
+VIEW_FORMS = ("time_slice", "time_interval", "subregion", "slice[int]", "Image(")
+
+
+def later_writes(ctx, d, name, res, args, before, chain=None):
+    """in-place operations a user may apply to a RESULT afterwards; the ARGUMENTS of the call must stay as they were.
+    Pixel writes through the result are exempt only for the documented view-returning forms."""
+    if not isinstance(res, d.Image):
+        return
+
+    def recheck(what):
+        for k, (x, b) in enumerate(zip(args, before)):
+            after = snap(x, d)
+            if after != b:
+                where = diff_path(b, after, f"arg{k}")
+                ctx.fail(f"C17:{name.split('[')[0] if chain else name}:{what}-on-result-reaches:{where.split(':')[0].split('.')[-1]}",
+                         f"after {name}, {what} applied to the RESULT changed an argument of the call: {where}",
+                         {"form": name, "later_operation": what, "where": where, "chain": chain,
+                          "before": repr(b)[:300], "after": repr(after)[:300]})
+                return False
+        return True
+
+    ctx.count(("later-writes", name), nontrivial=False)
+    if not name.startswith(VIEW_FORMS) and isinstance(res.img, np.ndarray) and res.img.flags.writeable and res.img.size:
+        fill = True if res.img.dtype == bool else 7
+        r = call(lambda: res.img.__setitem__(Ellipsis, fill))
+        if not isinstance(r, Raised) and not recheck("pixel-write"):
+            return
+    # element writes into the result's own `dimensions` list and `origin` coordinate: every modelled call builds these
+    # anew for its result (the constructor copies `dimensions` and rebuilds `origin`)
+    def setdim():
+        res.dimensions[0] = 99.5
+
+    def setorigin():
+        res.origin[0] = -99.5
+
+    for what, fn in (("dimensions-element-write", setdim), ("origin-element-write", setorigin)):
+        r = call(fn)
+        if not isinstance(r, Raised) and not recheck(what):
+            return
+    # DarSIA's own in-place operations: they rebind attributes of the result only
+    ops = [("update_metadata", lambda: res.update_metadata(name="renamed")), ("reset_origin", lambda: res.reset_origin())]
+    if isinstance(res, d.OpticalImage):
+        ops.append(("to_trichromatic-in-place", lambda: res.to_trichromatic("HSV")))
+    ops.append(("append", lambda: res.append(res.copy())))
+    if res.series:
+        ops.append(("reset_reference_time", lambda: res.reset_reference_time()))
+    for what, fn in ops:
+        r = call(fn)
+        if not recheck(what):
+            return
 
 
 ARITH = {"add": lambda a, b: a + b, "sub": lambda a, b: a - b}
@@ -897,6 +1122,7 @@ def run_form(ctx, d, name, kinds, builder, kind=None, operand=None, check_values
     for k, (x, b) in enumerate(zip(args, before)):
         after = snap(x, d)
         if after != b:
+            before[k] = after  # the later-writes oracle compares against the state after the call
             where = diff_path(b, after, f"arg{k}")
             ctx.fail(f"C17:{name}:mutates:{where.split(':')[0]}",
                      f"{name} modified its argument: {where}" + (f" (call raised {res!r})" if isinstance(res, Raised) else ""),
@@ -907,6 +1133,7 @@ def run_form(ctx, d, name, kinds, builder, kind=None, operand=None, check_values
                  {"form": name, "kind": kind})
     if check_values:
         check_arith(ctx, name, args, res)
+    later_writes(ctx, d, name, res, args, before)
     return res, args
 
 
@@ -943,8 +1170,27 @@ def chains(ctx, d, R, n):
                              {"chain": history, "kind": kind, "where": where, "culprit": nm})
                     tracked[k] = (obj, s1, origin)
             if isinstance(res, d.Image):
+                # sometimes the user goes on working IN PLACE on the result (b = a.f(..); b.img[...] = 0; b.append(x)):
+                # nothing tracked so far may change, except through the documented views
+                if not nm.startswith(VIEW_FORMS) and ctx.rng.random() < 0.5 and not any(res is t[0] for t in tracked):
+                    if res.img.flags.writeable and res.img.size:
+                        call(lambda: res.img.__setitem__(Ellipsis, True if res.img.dtype == bool else 5))
+                    if ctx.rng.random() < 0.5:
+                        call(lambda: res.append(res.copy()))
+                    history.append("<in-place on result>")
+                    for k, (obj, s0, origin) in enumerate(tracked):
+                        s1 = snap(obj, d)
+                        if s1 != s0:
+                            where = diff_path(s0, s1, origin.split("[")[0])
+                            ctx.fail(f"C17:chain:{nm.split('[')[0]}:in-place-on-result-reaches:{where.split(':')[0].split('.')[-1]}",
+                                     f"in the chain {history} working in place on the result of {nm} changed an {origin} of an earlier call: {where}",
+                                     {"chain": history, "kind": kind, "where": where, "culprit": nm})
+                            tracked[k] = (obj, s1, origin)
                 pool.append(res)
                 tracked.append((res, snap(res, d), f"result-of-{nm}"))
+
+
+BOOST = {"random_patches": 12, "subregion[voxels]": 3, "subregion[coordinates,outside]": 2}
 
 
 def oracle(ctx, d):
@@ -955,7 +1201,7 @@ def oracle(ctx, d):
     for name in sorted(R):
         kinds, builder = R[name]
         for kind in kinds:
-            for _ in range(reps):
+            for _ in range(reps * BOOST.get(name, 1)):
                 run_form(ctx, d, name, kinds, builder, kind=kind)
     chains(ctx, d, R, ctx.pick(400, 4000))
 
